@@ -64,6 +64,35 @@ func main() {
 			os.Exit(3)
 		}
 		writeStats(*stats, st)
+	case "govpanic":
+		res, err := apph.GovPanicScenarios(*scratch)
+		if err != nil {
+			fmt.Fprintln(os.Stderr, "error:", err)
+			os.Exit(3)
+		}
+		writeStats(*stats, res)
+	case "hostile":
+		agg := &apph.HostileStats{ByKind: map[string]int{}}
+		for i := 0; i < *n; i++ {
+			hs, err := apph.HostileRun(*seed*1000+int64(i), *scratch, *blocks)
+			if err != nil {
+				fmt.Fprintln(os.Stderr, "error:", err)
+				os.Exit(3)
+			}
+			agg.Inputs += hs.Inputs
+			agg.DeliverInputs += hs.DeliverInputs
+			agg.CheckInputs += hs.CheckInputs
+			agg.QueryInputs += hs.QueryInputs
+			agg.ReachedController += hs.ReachedController
+			agg.FollowUps += hs.FollowUps
+			agg.FollowUpOK += hs.FollowUpOK
+			agg.Panics = append(agg.Panics, hs.Panics...)
+			agg.Unusable = append(agg.Unusable, hs.Unusable...)
+			for k, v := range hs.ByKind {
+				agg.ByKind[k] += v
+			}
+		}
+		writeStats(*stats, agg)
 	case "app-replay":
 		st, err := apph.ReplayCases(*jsonOut, *out, *scratch, *evals)
 		if err != nil {
